@@ -295,8 +295,52 @@ def mec_of(out):
     p = len(out)
     if p <= 5:
         return [dag_from_code3(p, c) for c in class_table(p)[signature(out)]]
+    return mec_by_orientation(out)
+
+
+def mec_by_orientation(out):
+    """Class members by enumerating the acyclic orientations of the skeleton (any p; exponential in the edges)."""
     sig = signature(out)
     return [g for g in acyclic_orientations(out) if signature(g) == sig]
+
+
+def self_check(n=150, seed=0):
+    """Cross-check the oracle's independent routes against each other (run by the graph checks at start-up): class table
+    vs orientation enumeration, extension enumeration vs class membership, DFS vs Kahn.  Raises RuntimeError on
+    disagreement: an oracle bug must never be reported as a violation of the code under check."""
+    import random
+    rnd = random.Random(seed)
+    if len(all_dag_codes(4)) != 543 or len(class_table(4)) != 185 or len(all_dag_codes(3)) != 25 or len(class_table(3)) != 11:
+        raise RuntimeError("oracle self-check: wrong number of DAGs / classes")
+    codes = all_dag_codes(4)
+    for _ in range(n):
+        out = dag_from_code3(4, rnd.choice(codes))
+        a = sorted(tuple(g) for g in mec_of(out))
+        b = sorted(tuple(g) for g in mec_by_orientation(out))
+        if a != b:
+            raise RuntimeError("oracle self-check: class table and orientation enumeration disagree")
+        # the extensions of the essential graph are exactly the class
+        ess = union_graph([list(g) for g in a], 4)
+        c = sorted(tuple(g) for g in extensions(ess))
+        if c != a:
+            raise RuntimeError("oracle self-check: extensions(essential graph) != class")
+        try:
+            topological_order(out)
+            kahn_cyclic = False
+        except ValueError:
+            kahn_cyclic = True
+        if kahn_cyclic or has_cycle(out):
+            raise RuntimeError("oracle self-check: a DAG code is reported cyclic")
+    for _ in range(n):
+        m = [rnd.getrandbits(5) for _ in range(5)]
+        try:
+            topological_order(m)
+            k = False
+        except ValueError:
+            k = True
+        if k != has_cycle(m):
+            raise RuntimeError("oracle self-check: DFS and Kahn disagree")
+    return True
 
 
 def acyclic_orientations(out):
